@@ -21,8 +21,8 @@
 //   DefaultInfo::print_settings (the label / field pairs are listed in `settings_block`), _bool_on_off, print_nthreads, _get_precision_string,
 //   _print_conedims_by_type (count, the sizes of the members of that type in list order; at most five are listed, otherwise the first four
 //   and the last), SupportedConeTag::as_str, CompositeCone::len / iter, Presolver::count_reduced.
-//   ConfigurablePrintTarget for DefaultInfo: print_to_stdout / print_to_sink / print_to_buffer / get_print_buffer forward to the stream and
-//   change nothing else.
+//   ConfigurablePrintTarget for DefaultInfo: print_to_stdout / print_to_file / print_to_sink / print_to_buffer / get_print_buffer forward to the
+//   stream (a fresh target of the named kind with an empty history; get_print_buffer is Ok exactly for a buffer) and change nothing else.
 //   LINK TO UNIT solve: `printed_of(items)` = the values of the iteration cells (format "{:>3}  ", one integer argument) in the history = the
 //   first-column values of the status lines.  Proved here: print_status (verbose, Ok) appends exactly `iterations` to it; print_status with
 //   verbose off, print_configuration, print_status_header, print_footer, print_settings leave it unchanged.  These are the four contracts
@@ -39,10 +39,17 @@
 //     ax_usize_display (the Display text of a usize is a function of its value); ax_float_size (size_of::<F>() <= 16: F is f32 / f64).
 // DROPPED: expformat!'s finite / non-finite case split and _exp_str_reformat (textual shape of a number only; Kani harness
 //   expformat_nonfinite_no_panic covers panic-freedom), print_chordal_decomposition and the PSDTriangleCone line (feature sdp: R12),
-//   print_to_file / print_to_stream / print_target (std::fs::File, Box<dyn Write + Send + Sync>, &mut dyn Write: no Verus model), byte-level
+//   print_to_stream / print_target (Verus: "dyn with more than one trait" / "unsizing operation to &mut dyn Write" unsupported), byte-level
 //   text (padding, digits), `_print_banner`.
 // EXCLUDED label / field pair (potential finding, reported): `_bool_on_off(false)` returns "false" where its name promises "off"; the spec
-//   fixes only enabled -> "on", disabled -> one other word.
+//   fixes only enabled -> "on", disabled -> one other word (`on_off_word`, closed: its definition has to follow a fix of the code).
+// NOT IN THE CODE (reported): the footer prints status and solve time only -- no iteration count, no objective value.
+// Format strings (labels with their padding, number formats) are part of the specification: a changed label is a failed obligation.
+// Mutation round (scratch copy, 34 wrong edits of info_print.rs, one at a time): 33 fail a named obligation (swapped figures / labels / fields,
+//   guards removed / moved / inverted, n <-> m, nnz(P) from A, cone order, footer value, iterations + 1, max for min, precision, list bounds,
+//   thread arms, dropped newline, forwarding to the wrong target, ignored write result).  SURVIVOR: dropping `out.flush()` in
+//   print_status_header (flushing has no effect on the item history; the property does not mention it).
+// rlimit: largest function ~7-12 M of 150 M (print_settings, _print_conedims_by_type), 45 obligations, stable under Z3 seeds 1-6.
 use vstd::prelude::*;
 use vstd::string::*;
 use vstd::std_specs::iter::IteratorSpec;
@@ -52,6 +59,9 @@ verus! {
 #[verifier::external_type_specification]
 #[verifier::external_body]
 pub struct ExIoError(std::io::Error);
+#[verifier::external_type_specification]
+#[verifier::external_body]
+pub struct ExFile(std::fs::File);
 
 //@enum file=src/solver/core/solver.rs name=SolverStatus derive="PartialEq, Eq, Clone, Copy, Structural"
 //@enum file=src/solver/core/cones/supportedcone.rs name=SupportedConeT rules=R12
@@ -150,6 +160,8 @@ impl PrintTarget {
     // impl ConfigurablePrintTarget for PrintTarget (src/io.rs): the target is replaced by a fresh one of the named kind
     #[verifier::external_body] pub fn print_to_stdout(&mut self)
         ensures final(self).kind() == TargetKind::Stdout, final(self).items() == Seq::<Item>::empty() { unimplemented!() }
+    #[verifier::external_body] pub fn print_to_file(&mut self, file: std::fs::File)
+        ensures final(self).kind() == TargetKind::File, final(self).items() == Seq::<Item>::empty() { unimplemented!() }
     #[verifier::external_body] pub fn print_to_sink(&mut self)
         ensures final(self).kind() == TargetKind::Sink, final(self).items() == Seq::<Item>::empty() { unimplemented!() }
     #[verifier::external_body] pub fn print_to_buffer(&mut self)
@@ -253,22 +265,33 @@ pub open spec fn figure_cell(k: int, i: DefaultInfo<F>) -> Item {
     cell("{}  "@, seq![FmtVal::S(exp_text(progress_numfmt()[k], progress_values(i)[k]))])
 }
 pub open spec fn label_cell(k: int) -> Item { cell(progress_labels()[k], seq![]) }
-pub open spec fn header_items() -> Seq<Item> {
-    seq![label_cell(0), label_cell(1), label_cell(2), label_cell(3), label_cell(4), label_cell(5), label_cell(6), label_cell(7), label_cell(8),
-         line(""@, seq![]), rule_line()]
+// Every list below is written once, as `X_onto(b, ..)` = the items appended to a history b; `X(..)` = X_onto(empty, ..) is the list itself and
+// lemma_X says X_onto(b, ..) == b + X(..).  (The code's history is a chain of pushes: it equals X_onto(old, ..) term by term.)
+pub open spec fn header_onto(b: Seq<Item>) -> Seq<Item> {
+    b.push(label_cell(0)).push(label_cell(1)).push(label_cell(2)).push(label_cell(3)).push(label_cell(4)).push(label_cell(5))
+     .push(label_cell(6)).push(label_cell(7)).push(label_cell(8)).push(line(""@, seq![])).push(rule_line())
 }
-pub open spec fn status_line(i: DefaultInfo<F>) -> Seq<Item> {
-    seq![iter_cell(i.iterations as nat),
-         figure_cell(1, i), figure_cell(2, i), figure_cell(3, i), figure_cell(4, i), figure_cell(5, i), figure_cell(6, i), figure_cell(7, i),
-         if i.iterations > 0 { figure_cell(8, i) } else { cell(" ------   "@, seq![]) },   // no step before the first iteration
-         line(""@, seq![])]
+pub open spec fn header_items() -> Seq<Item> { header_onto(Seq::empty()) }
+pub proof fn lemma_header(b: Seq<Item>) ensures header_onto(b) == b + header_items() { assert(header_onto(b) =~= b + header_items()); }
+pub open spec fn status_line_onto(b: Seq<Item>, i: DefaultInfo<F>) -> Seq<Item> {
+    b.push(iter_cell(i.iterations as nat))
+     .push(figure_cell(1, i)).push(figure_cell(2, i)).push(figure_cell(3, i)).push(figure_cell(4, i)).push(figure_cell(5, i))
+     .push(figure_cell(6, i)).push(figure_cell(7, i))
+     .push(if i.iterations > 0 { figure_cell(8, i) } else { cell(" ------   "@, seq![]) })   // no step before the first iteration
+     .push(line(""@, seq![]))
 }
-pub open spec fn footer_items(i: DefaultInfo<F>) -> Seq<Item> {
-    seq![
-        rule_line(),
-        line("Terminated with status = {}"@, seq![FmtVal::St(i.status)]),
-        line("solve time = {:?}"@, seq![FmtVal::Dur(i.solve_time)]),
-    ]
+pub open spec fn status_line(i: DefaultInfo<F>) -> Seq<Item> { status_line_onto(Seq::empty(), i) }
+pub proof fn lemma_status_line(b: Seq<Item>, i: DefaultInfo<F>) ensures status_line_onto(b, i) == b + status_line(i) {
+    assert(status_line_onto(b, i) =~= b + status_line(i));
+}
+pub open spec fn footer_onto(b: Seq<Item>, i: DefaultInfo<F>) -> Seq<Item> {
+    b.push(rule_line())
+     .push(line("Terminated with status = {}"@, seq![FmtVal::St(i.status)]))
+     .push(line("solve time = {:?}"@, seq![FmtVal::Dur(i.solve_time)]))
+}
+pub open spec fn footer_items(i: DefaultInfo<F>) -> Seq<Item> { footer_onto(Seq::empty(), i) }
+pub proof fn lemma_footer(b: Seq<Item>, i: DefaultInfo<F>) ensures footer_onto(b, i) == b + footer_items(i) {
+    assert(footer_onto(b, i) =~= b + footer_items(i));
 }
 
 // ---- the iteration column: what unit solve calls `printed()`
@@ -344,15 +367,17 @@ pub open spec fn presolve_part(d: DefaultProblemData<F>) -> Seq<Item> {
         None => Seq::<Item>::empty(),
     }
 }
-pub open spec fn problem_part(d: DefaultProblemData<F>, cs: Seq<SupportedCone<F>>) -> Seq<Item> {
-    seq![
-        line("\nproblem:"@, seq![]),
-        line("  variables     = {}"@, seq![FmtVal::U(d.n as nat)]),
-        line("  constraints   = {}"@, seq![FmtVal::U(d.m as nat)]),
-        line("  nnz(P)        = {}"@, seq![FmtVal::U(d.P.nnz_spec())]),
-        line("  nnz(A)        = {}"@, seq![FmtVal::U(d.A.nnz_spec())]),
-        line("  cones (total) = {}"@, seq![FmtVal::U(cs.len())]),
-    ]
+pub open spec fn problem_onto(b: Seq<Item>, d: DefaultProblemData<F>, cs: Seq<SupportedCone<F>>) -> Seq<Item> {
+    b.push(line("\nproblem:"@, seq![]))
+     .push(line("  variables     = {}"@, seq![FmtVal::U(d.n as nat)]))
+     .push(line("  constraints   = {}"@, seq![FmtVal::U(d.m as nat)]))
+     .push(line("  nnz(P)        = {}"@, seq![FmtVal::U(d.P.nnz_spec())]))
+     .push(line("  nnz(A)        = {}"@, seq![FmtVal::U(d.A.nnz_spec())]))
+     .push(line("  cones (total) = {}"@, seq![FmtVal::U(cs.len())]))
+}
+pub open spec fn problem_part(d: DefaultProblemData<F>, cs: Seq<SupportedCone<F>>) -> Seq<Item> { problem_onto(Seq::empty(), d, cs) }
+pub proof fn lemma_problem(b: Seq<Item>, d: DefaultProblemData<F>, cs: Seq<SupportedCone<F>>) ensures problem_onto(b, d, cs) == b + problem_part(d, cs) {
+    assert(problem_onto(b, d, cs) =~= b + problem_part(d, cs));
 }
 pub open spec fn cones_part(cs: Seq<SupportedCone<F>>) -> Seq<Item> {
     cone_line(cs, SupportedConeTag::ZeroCone) + cone_line(cs, SupportedConeTag::NonnegativeCone)
@@ -386,45 +411,157 @@ pub open spec fn threads_part(n: usize) -> Seq<Item> {
     else if n == 1 { seq![cell("(1 thread)"@, seq![])] }
     else { seq![cell("({nthreads} threads)"@, seq![FmtVal::U(n as nat)])] }
 }
-#[verifier::opaque]
-pub open spec fn settings_head(ls: LinearSolverInfo) -> Seq<Item> {
-    seq![
-        line("settings:"@, seq![]),
-        cell("  linear algebra: "@, seq![]),
-        cell(if ls.direct { "direct / {}, "@ } else { "indirect / {}, "@ }, seq![FmtVal::S(ls.name@)]),
-        cell("precision: {} bit "@, seq![FmtVal::S(precision_text())]),
-    ]
+pub open spec fn settings_head_onto(b: Seq<Item>, ls: LinearSolverInfo) -> Seq<Item> {
+    b.push(line("settings:"@, seq![]))
+     .push(cell("  linear algebra: "@, seq![]))
+     .push(cell(if ls.direct { "direct / {}, "@ } else { "indirect / {}, "@ }, seq![FmtVal::S(ls.name@)]))
+     .push(cell("precision: {} bit "@, seq![FmtVal::S(precision_text())]))
 }
-#[verifier::opaque]
-pub open spec fn settings_tail(set: DefaultSettings<F>) -> Seq<Item> {
-    seq![
-        line(""@, seq![]),
-        line("  max iter = {}, time limit = {},  max step = {:.3}"@,
-             seq![FmtVal::U(set.max_iter as nat), FmtVal::S(time_limit_text(set.time_limit)), FmtVal::Fl(set.max_step_fraction)]),
-        line("  tol_feas = {:.1e}, tol_gap_abs = {:.1e}, tol_gap_rel = {:.1e},"@,
-             seq![FmtVal::Fl(set.tol_feas), FmtVal::Fl(set.tol_gap_abs), FmtVal::Fl(set.tol_gap_rel)]),
-        line("  static reg : {}, ϵ1 = {:.1e}, ϵ2 = {:.1e}"@,
+pub open spec fn settings_head(ls: LinearSolverInfo) -> Seq<Item> { settings_head_onto(Seq::empty(), ls) }
+pub proof fn lemma_settings_head(b: Seq<Item>, ls: LinearSolverInfo) ensures settings_head_onto(b, ls) == b + settings_head(ls) {
+    assert(settings_head_onto(b, ls) =~= b + settings_head(ls));
+}
+pub open spec fn settings_tail_onto(b: Seq<Item>, set: DefaultSettings<F>) -> Seq<Item> {
+    b.push(line(""@, seq![]))
+     .push(line("  max iter = {}, time limit = {},  max step = {:.3}"@,
+             seq![FmtVal::U(set.max_iter as nat), FmtVal::S(time_limit_text(set.time_limit)), FmtVal::Fl(set.max_step_fraction)]))
+     .push(line("  tol_feas = {:.1e}, tol_gap_abs = {:.1e}, tol_gap_rel = {:.1e},"@,
+             seq![FmtVal::Fl(set.tol_feas), FmtVal::Fl(set.tol_gap_abs), FmtVal::Fl(set.tol_gap_rel)]))
+     .push(line("  static reg : {}, ϵ1 = {:.1e}, ϵ2 = {:.1e}"@,
              seq![FmtVal::S(on_off_word(set.static_regularization_enable)), FmtVal::Fl(set.static_regularization_constant),
-                  FmtVal::Fl(set.static_regularization_proportional)]),
-        line("  dynamic reg: {}, ϵ = {:.1e}, δ = {:.1e}"@,
+                  FmtVal::Fl(set.static_regularization_proportional)]))
+     .push(line("  dynamic reg: {}, ϵ = {:.1e}, δ = {:.1e}"@,
              seq![FmtVal::S(on_off_word(set.dynamic_regularization_enable)), FmtVal::Fl(set.dynamic_regularization_eps),
-                  FmtVal::Fl(set.dynamic_regularization_delta)]),
-        line("  iter refine: {}, reltol = {:.1e}, abstol = {:.1e},"@,
+                  FmtVal::Fl(set.dynamic_regularization_delta)]))
+     .push(line("  iter refine: {}, reltol = {:.1e}, abstol = {:.1e},"@,
              seq![FmtVal::S(on_off_word(set.iterative_refinement_enable)), FmtVal::Fl(set.iterative_refinement_reltol),
-                  FmtVal::Fl(set.iterative_refinement_abstol)]),
-        line("               max iter = {}, stop ratio = {:.1}"@,
-             seq![FmtVal::U(set.iterative_refinement_max_iter as nat), FmtVal::Fl(set.iterative_refinement_stop_ratio)]),
-        line("  equilibrate: {}, min_scale = {:.1e}, max_scale = {:.1e}"@,
-             seq![FmtVal::S(on_off_word(set.equilibrate_enable)), FmtVal::Fl(set.equilibrate_min_scaling), FmtVal::Fl(set.equilibrate_max_scaling)]),
-        line("               max iter = {}"@, seq![FmtVal::U(set.equilibrate_max_iter as nat)]),
-        line(""@, seq![]),
-    ]
+                  FmtVal::Fl(set.iterative_refinement_abstol)]))
+     .push(line("               max iter = {}, stop ratio = {:.1}"@,
+             seq![FmtVal::U(set.iterative_refinement_max_iter as nat), FmtVal::Fl(set.iterative_refinement_stop_ratio)]))
+     .push(line("  equilibrate: {}, min_scale = {:.1e}, max_scale = {:.1e}"@,
+             seq![FmtVal::S(on_off_word(set.equilibrate_enable)), FmtVal::Fl(set.equilibrate_min_scaling), FmtVal::Fl(set.equilibrate_max_scaling)]))
+     .push(line("               max iter = {}"@, seq![FmtVal::U(set.equilibrate_max_iter as nat)]))
+     .push(line(""@, seq![]))
+}
+pub open spec fn settings_tail(set: DefaultSettings<F>) -> Seq<Item> { settings_tail_onto(Seq::empty(), set) }
+pub proof fn lemma_settings_tail(b: Seq<Item>, set: DefaultSettings<F>) ensures settings_tail_onto(b, set) == b + settings_tail(set) {
+    assert(settings_tail_onto(b, set) =~= b + settings_tail(set));
 }
 pub open spec fn settings_block(set: DefaultSettings<F>, ls: LinearSolverInfo) -> Seq<Item> {
     settings_head(ls) + threads_part(ls.threads) + settings_tail(set)
 }
 pub open spec fn configuration_items(set: DefaultSettings<F>, d: DefaultProblemData<F>, cs: Seq<SupportedCone<F>>, ls: LinearSolverInfo) -> Seq<Item> {
     presolve_part(d) + problem_part(d, cs) + cones_part(cs) + seq![line(""@, seq![])] + settings_block(set, ls)
+}
+// ---- the iteration column of each list (link to unit solve): only a status line contributes, and it contributes `iterations`
+pub proof fn lemma_no_iter_concat(a: Seq<Item>, b: Seq<Item>)
+    requires no_iter_cell(a), no_iter_cell(b),
+    ensures no_iter_cell(a + b),
+{
+    assert forall|k: int| 0 <= k < (a + b).len() implies !is_iter_cell(#[trigger] (a + b)[k]) by {
+        if k < a.len() { assert((a + b)[k] == a[k]); } else { assert((a + b)[k] == b[k - a.len()]); }
+    }
+}
+// the format string of the iteration cell differs from every other format string that carries exactly one integer
+pub proof fn lemma_iter_fmt_distinct()
+    ensures
+        "{}  "@ != "{:>3}  "@, "\npresolve: removed {} constraints"@ != "{:>3}  "@, "  variables     = {}"@ != "{:>3}  "@,
+        "  constraints   = {}"@ != "{:>3}  "@, "  nnz(P)        = {}"@ != "{:>3}  "@, "  nnz(A)        = {}"@ != "{:>3}  "@,
+        "  cones (total) = {}"@ != "{:>3}  "@, " numel = {}"@ != "{:>3}  "@, "{},"@ != "{:>3}  "@, "{})"@ != "{:>3}  "@,
+        "...,{})"@ != "{:>3}  "@, "({nthreads} threads)"@ != "{:>3}  "@, "               max iter = {}"@ != "{:>3}  "@,
+{
+    reveal_strlit("{:>3}  "); reveal_strlit("{}  "); reveal_strlit("\npresolve: removed {} constraints"); reveal_strlit("  variables     = {}");
+    reveal_strlit("  constraints   = {}"); reveal_strlit("  nnz(P)        = {}"); reveal_strlit("  nnz(A)        = {}");
+    reveal_strlit("  cones (total) = {}"); reveal_strlit(" numel = {}"); reveal_strlit("{},"); reveal_strlit("{})");
+    reveal_strlit("...,{})"); reveal_strlit("({nthreads} threads)"); reveal_strlit("               max iter = {}");
+    assert("{:>3}  "@.len() == 7 && "{:>3}  "@[0] == '{');
+    assert("{}  "@.len() == 4);
+    assert("\npresolve: removed {} constraints"@.len() > 7);
+    assert("  variables     = {}"@.len() > 7 && "  constraints   = {}"@.len() > 7 && "  nnz(P)        = {}"@.len() > 7);
+    assert("  nnz(A)        = {}"@.len() > 7 && "  cones (total) = {}"@.len() > 7 && " numel = {}"@.len() > 7);
+    assert("{},"@.len() == 3 && "{})"@.len() == 3);
+    assert("...,{})"@[0] == '.');
+    assert("({nthreads} threads)"@.len() > 7 && "               max iter = {}"@.len() > 7);
+}
+pub proof fn lemma_status_printed(b: Seq<Item>, i: DefaultInfo<F>)
+    ensures printed_of(b + status_line(i)) == printed_of(b).push(i.iterations as nat),
+{
+    reveal(item);
+    lemma_iter_fmt_distinct();
+    let t = status_line(i);
+    let c = iter_cell(i.iterations as nat);
+    let rest = t.subrange(1, 10);
+    assert(b + t =~= b.push(c) + rest);
+    assert(no_iter_cell(rest)) by {
+        assert forall|k: int| 0 <= k < rest.len() implies !is_iter_cell(#[trigger] rest[k]) by { assert(rest[k] == t[k + 1]); }
+    }
+    lemma_printed_append(b.push(c), rest);
+    lemma_printed_push(b, c);
+}
+pub proof fn lemma_header_printed(b: Seq<Item>) ensures printed_of(b + header_items()) == printed_of(b) {
+    reveal(item);
+    lemma_printed_append(b, header_items());
+}
+pub proof fn lemma_footer_printed(b: Seq<Item>, i: DefaultInfo<F>) ensures printed_of(b + footer_items(i)) == printed_of(b) {
+    reveal(item);
+    lemma_printed_append(b, footer_items(i));
+}
+pub proof fn lemma_settings_no_iter(set: DefaultSettings<F>, ls: LinearSolverInfo) ensures no_iter_cell(settings_block(set, ls)) {
+    reveal(item);
+    lemma_iter_fmt_distinct();
+    assert(no_iter_cell(settings_head(ls)));
+    assert(no_iter_cell(threads_part(ls.threads)));
+    assert(no_iter_cell(settings_tail(set)));
+    lemma_no_iter_concat(settings_head(ls), threads_part(ls.threads));
+    lemma_no_iter_concat(settings_head(ls) + threads_part(ls.threads), settings_tail(set));
+}
+pub proof fn lemma_cone_line_no_iter(cs: Seq<SupportedCone<F>>, tag: SupportedConeTag) ensures no_iter_cell(cone_line(cs, tag)) {
+    reveal(item); reveal(cone_line);
+    lemma_iter_fmt_distinct();
+    let nv = numels_of(cs, tag);
+    if nv.len() > 0 {
+        let c = nv.len() as int;
+        let first = seq![cell("    : {} = {}, "@, seq![FmtVal::S(cone_label(tag)), FmtVal::U(nv.len())])];
+        let last = seq![line(""@, seq![])];
+        assert(no_iter_cell(first));
+        assert(no_iter_cell(last));
+        assert(no_iter_cell(numel_cells(nv, c - 1)));
+        assert(no_iter_cell(numel_cells(nv, 4)));
+        if c == 1 {
+        } else if c <= 5 {
+            lemma_no_iter_concat(seq![cell(" numel = ("@, seq![])], numel_cells(nv, c - 1));
+            lemma_no_iter_concat(seq![cell(" numel = ("@, seq![])] + numel_cells(nv, c - 1), seq![cell("{})"@, seq![FmtVal::U(nv[c - 1] as nat)])]);
+        } else {
+            lemma_no_iter_concat(seq![cell(" numel = ("@, seq![])], numel_cells(nv, 4));
+            lemma_no_iter_concat(seq![cell(" numel = ("@, seq![])] + numel_cells(nv, 4), seq![cell("...,{})"@, seq![FmtVal::U(nv[c - 1] as nat)])]);
+        }
+        assert(no_iter_cell(numel_part(nv)));
+        lemma_no_iter_concat(first, numel_part(nv));
+        lemma_no_iter_concat(first + numel_part(nv), last);
+    }
+}
+pub proof fn lemma_configuration_printed(b: Seq<Item>, set: DefaultSettings<F>, d: DefaultProblemData<F>, cs: Seq<SupportedCone<F>>, ls: LinearSolverInfo)
+    ensures printed_of(b + configuration_items(set, d, cs, ls)) == printed_of(b),
+{
+    lemma_iter_fmt_distinct();
+    lemma_settings_no_iter(set, ls);
+    lemma_cone_line_no_iter(cs, SupportedConeTag::ZeroCone); lemma_cone_line_no_iter(cs, SupportedConeTag::NonnegativeCone);
+    lemma_cone_line_no_iter(cs, SupportedConeTag::SecondOrderCone); lemma_cone_line_no_iter(cs, SupportedConeTag::ExponentialCone);
+    lemma_cone_line_no_iter(cs, SupportedConeTag::PowerCone); lemma_cone_line_no_iter(cs, SupportedConeTag::GenPowerCone);
+    let l1 = cone_line(cs, SupportedConeTag::ZeroCone); let l2 = cone_line(cs, SupportedConeTag::NonnegativeCone);
+    let l3 = cone_line(cs, SupportedConeTag::SecondOrderCone); let l4 = cone_line(cs, SupportedConeTag::ExponentialCone);
+    let l5 = cone_line(cs, SupportedConeTag::PowerCone); let l6 = cone_line(cs, SupportedConeTag::GenPowerCone);
+    lemma_no_iter_concat(l1, l2); lemma_no_iter_concat(l1 + l2, l3); lemma_no_iter_concat(l1 + l2 + l3, l4);
+    lemma_no_iter_concat(l1 + l2 + l3 + l4, l5); lemma_no_iter_concat(l1 + l2 + l3 + l4 + l5, l6);
+    assert(no_iter_cell(presolve_part(d))) by { reveal(item); }
+    assert(no_iter_cell(problem_part(d, cs))) by { reveal(item); }
+    let blank = seq![line(""@, seq![])];
+    assert(no_iter_cell(blank)) by { reveal(item); }
+    lemma_no_iter_concat(presolve_part(d), problem_part(d, cs));
+    lemma_no_iter_concat(presolve_part(d) + problem_part(d, cs), cones_part(cs));
+    lemma_no_iter_concat(presolve_part(d) + problem_part(d, cs) + cones_part(cs), blank);
+    lemma_no_iter_concat(presolve_part(d) + problem_part(d, cs) + cones_part(cs) + blank, settings_block(set, ls));
+    lemma_printed_append(b, configuration_items(set, d, cs, ls));
 }
 // nothing but the print target changes
 pub open spec fn only_stream(a: DefaultInfo<F>, b: DefaultInfo<F>) -> bool { a == (DefaultInfo::<F> { stream: a.stream, ..b }) }
@@ -512,15 +649,13 @@ impl DefaultInfo<F> {
     proof { ax_float_size(); }
     let ghost it0 = self.stream.items();
     let ghost ls = self.linsolver;
-    let ghost mut g1 = it0; let ghost mut g2 = it0;
+    let ghost mut g1 = it0;
 //@after_stmt 7
-    proof { reveal(settings_head); g1 = out.items(); assert(g1 =~= it0 + (settings_head(ls) + threads_part(ls.threads))); }
-//@after_stmt 13
-    proof { reveal(settings_tail); g2 = out.items(); assert(g2 =~= g1 + settings_tail(*settings).subrange(0, 5)); }
+    proof { g1 = out.items(); assert(g1 == settings_head_onto(it0, ls) + threads_part(ls.threads)); }
 //@post
     proof {
-        assert(self.stream.items() =~= g2 + settings_tail(*settings).subrange(5, 11)) by { reveal(settings_tail); }
-        assert(self.stream.items() =~= g1 + settings_tail(*settings)) by { reveal(settings_tail); }
+        assert(self.stream.items() == settings_tail_onto(g1, *settings));
+        lemma_settings_head(it0, ls); lemma_settings_tail(g1, *settings);
         assert(self.stream.items() =~= it0 + settings_block(*settings, ls));
     }
 //@end
@@ -532,6 +667,8 @@ impl DefaultInfo<F> {
         !settings.verbose ==> r is Ok && final(self).stream.items() == old(self).stream.items(),
         settings.verbose && r is Ok ==> final(self).stream.items()
             == old(self).stream.items() + configuration_items(*settings, *data, cones.cones@, old(self).linsolver),
+        // unit solve's contract: the iteration column is untouched
+        r is Ok ==> printed_of(final(self).stream.items()) == printed_of(old(self).stream.items()),
 //@pre
     let ghost it0 = self.stream.items();
     let ghost ls = self.linsolver;
@@ -540,7 +677,7 @@ impl DefaultInfo<F> {
 //@after_stmt 3
     proof { g1 = out.items(); assert(g1 =~= it0 + presolve_part(*data)); }
 //@after_stmt 9
-    proof { g2 = out.items(); assert(g2 =~= g1 + problem_part(*data, cs)); }
+    proof { g2 = out.items(); assert(g2 == problem_onto(g1, *data, cs)); lemma_problem(g1, *data, cs); }
 //@after_stmt 15
     proof { g3 = out.items(); assert(g3 =~= g2 + cones_part(cs)); }
 //@after_stmt 16
@@ -550,6 +687,7 @@ impl DefaultInfo<F> {
         let g5 = self.stream.items();
         assert(g5 == g4 + settings_block(*settings, ls));
         assert(g5 =~= it0 + configuration_items(*settings, *data, cs, ls));
+        lemma_configuration_printed(it0, *settings, *data, cs, ls);
     }
 //@end
 
@@ -558,8 +696,9 @@ impl DefaultInfo<F> {
     ensures only_stream(*final(self), *old(self)), final(self).stream.kind() == old(self).stream.kind(),
         !settings.verbose ==> r is Ok && final(self).stream.items() == old(self).stream.items(),
         settings.verbose && r is Ok ==> final(self).stream.items() == old(self).stream.items() + header_items(),
+        r is Ok ==> printed_of(final(self).stream.items()) == printed_of(old(self).stream.items()),
 //@post
-    proof { assert(self.stream.items() =~= old(self).stream.items() + header_items()); }
+    proof { assert(self.stream.items() == header_onto(old(self).stream.items())); lemma_header(old(self).stream.items()); lemma_header_printed(old(self).stream.items()); }
 //@end
 
 //@fn file=src/solver/implementations/default/info_print.rs in="impl<T> InfoPrint<T> for DefaultInfo<T>" name=print_status rules=R1,R2,R1f,wfmt ret=r
@@ -567,8 +706,11 @@ impl DefaultInfo<F> {
     ensures only_stream(*final(self), *old(self)), final(self).stream.kind() == old(self).stream.kind(),
         !settings.verbose ==> r is Ok && final(self).stream.items() == old(self).stream.items(),
         settings.verbose && r is Ok ==> final(self).stream.items() == old(self).stream.items() + status_line(*old(self)),
+        // unit solve's contract: verbose ==> printed == old.printed.push(iterations), !verbose ==> unchanged
+        settings.verbose && r is Ok ==> printed_of(final(self).stream.items()) == printed_of(old(self).stream.items()).push(old(self).iterations as nat),
+        !settings.verbose ==> printed_of(final(self).stream.items()) == printed_of(old(self).stream.items()),
 //@post
-    proof { assert(self.stream.items() =~= old(self).stream.items() + status_line(*old(self))); }
+    proof { assert(self.stream.items() == status_line_onto(old(self).stream.items(), *old(self))); lemma_status_line(old(self).stream.items(), *old(self)); lemma_status_printed(old(self).stream.items(), *old(self)); }
 //@end
 
 //@fn file=src/solver/implementations/default/info_print.rs in="impl<T> InfoPrint<T> for DefaultInfo<T>" name=print_footer rules=R1,R2,R1f,wfmt ret=r
@@ -577,14 +719,19 @@ impl DefaultInfo<F> {
     ensures only_stream(*final(self), *old(self)), final(self).stream.kind() == old(self).stream.kind(),
         !settings.verbose ==> r is Ok && final(self).stream.items() == old(self).stream.items(),
         settings.verbose && r is Ok ==> final(self).stream.items() == old(self).stream.items() + footer_items(*old(self)),
+        r is Ok ==> printed_of(final(self).stream.items()) == printed_of(old(self).stream.items()),
 //@post
-    proof { assert(self.stream.items() =~= old(self).stream.items() + footer_items(*old(self))); }
+    proof { assert(self.stream.items() == footer_onto(old(self).stream.items(), *old(self))); lemma_footer(old(self).stream.items(), *old(self)); lemma_footer_printed(old(self).stream.items(), *old(self)); }
 //@end
 
 // ---- impl<T> ConfigurablePrintTarget for DefaultInfo<T>
 //@fn file=src/solver/implementations/default/info_print.rs in="impl<T> ConfigurablePrintTarget for DefaultInfo<T>" name=print_to_stdout
 //@contract
     ensures only_stream(*final(self), *old(self)), final(self).stream.kind() == TargetKind::Stdout, final(self).stream.items() == Seq::<Item>::empty(),
+//@end
+//@fn file=src/solver/implementations/default/info_print.rs in="impl<T> ConfigurablePrintTarget for DefaultInfo<T>" name=print_to_file
+//@contract
+    ensures only_stream(*final(self), *old(self)), final(self).stream.kind() == TargetKind::File, final(self).stream.items() == Seq::<Item>::empty(),
 //@end
 //@fn file=src/solver/implementations/default/info_print.rs in="impl<T> ConfigurablePrintTarget for DefaultInfo<T>" name=print_to_sink
 //@contract
